@@ -54,6 +54,14 @@ type Evaluator struct {
 	Externals map[string]string
 	ToIDR     map[*xmlquery.Node]*idr.Node // mirror node -> live node (only used by `copy`, whose rendering C08 owns)
 	Stats     map[string]int
+	Alt       bool // the schema is bound to omni.ExtAlt: vf_s / vf_2 / vf_i render with an ALT_ prefix
+}
+
+func (ev *Evaluator) altPrefix() string {
+	if ev.Alt {
+		return "ALT_"
+	}
+	return ""
 }
 
 // ParseDecls extracts transform_declarations from the schema text.
@@ -618,7 +626,7 @@ func (ev *Evaluator) call(f *TFunc, cur cursor) (interface{}, error) {
 		for i, s := range ss {
 			qs[i] = q(s)
 		}
-		return "S(" + strings.Join(qs, ",") + ")", nil
+		return ev.altPrefix() + "S(" + strings.Join(qs, ",") + ")", nil
 	case "vf_2":
 		if err := exactly(2); err != nil {
 			return nil, err
@@ -628,7 +636,7 @@ func (ev *Evaluator) call(f *TFunc, cur cursor) (interface{}, error) {
 		if e1 != nil || e2 != nil {
 			return nil, errors.New("bad argument")
 		}
-		return "2(" + q(a) + "," + q(b) + ")", nil
+		return ev.altPrefix() + "2(" + q(a) + "," + q(b) + ")", nil
 	case "vf_i":
 		if err := exactly(2); err != nil {
 			return nil, err
@@ -645,7 +653,7 @@ func (ev *Evaluator) call(f *TFunc, cur cursor) (interface{}, error) {
 		if err != nil {
 			return nil, err
 		}
-		return "I(" + strconv.FormatInt(n, 10) + "," + q(s) + ")", nil
+		return ev.altPrefix() + "I(" + strconv.FormatInt(n, 10) + "," + q(s) + ")", nil
 	case "vf_f":
 		if err := exactly(1); err != nil {
 			return nil, err
